@@ -644,7 +644,7 @@ class FxBuilder(Builder):
             ops = tuple(self.ev_operand(fr, o) for o in rv[2])
             if a["k"] == "adt":
                 return self.simp(N(("agg", a["path"], a["vname"], ops)))
-            return ("agg", a["k"], "", ops)
+            return ("agg", a["k"], a.get("path", "") if a["k"] == "closure" and self.ai_mode else "", ops)
         if k == "repeat":
             return ("repeat", self.ev_operand(fr, rv[1]), rv[2])
         return ("unknown", str(rv[0]))
